@@ -28,7 +28,7 @@ const VALS: &[&str] = &["eu", "us", "1", "10", "3", "abc", "+7", "-1", "42949672
 const NAMES: &[&str] = &["Alice", "Bob", "alice", "Ünïcode", "a_b", "Steve123", ""];
 const HOSTS: &[&str] = &["lobby.example.org", "survival.example.org", "localhost", "EXAMPLE.org", ""];
 const HOST_RX: &[&str] = &["^lobby\\.", "example\\.org$", ".*", "^$", "(?i)example", "survival|lobby", "^x"];
-const NAME_RX: &[&str] = &["^A", "(?i)^alice$", "\\d+$", ".*", "^$", "_"];
+const NAME_RX: &[&str] = &["^A", "(?i)^alice$", "\\d+$", ".*", "^$", "_", "", "", "()", "^", "a|"];
 
 fn gen_op(rng: &mut Rng) -> Op {
     let v = |rng: &mut Rng| rng.pick(VALS).to_string();
